@@ -420,7 +420,7 @@ TRUSTED_TEXT = {
     'T1': "rustc's derived PartialEq/Clone on the extracted types behave as spec `ueq` / identity (assume_specification + PartialEqSpecImpl)",
     'T2': 'vstd specifications of Vec, Rc, Box, Option, String, slices; axioms added where vstd has none are listed individually',
     'T3': 'assumed specifications for std string/char primitives (listed individually); AUDITED on every run against the std in use by the oracle trusted_std (replay/src/o_trusted.rs): the character-level axioms for every char (complete), str::trim / String::cmp / prefix, suffix and containment tests / HashMap lookups by &str for every string up to length 3-6 over an alphabet with every class the specifications distinguish (bounded); an audit failure makes the check UNDECIDED (exit 2), never a violation. spec/std_eq.rs (every unit): String equality is equality of the characters, String += appends, IEEE == is symmetric, the partial comparison of (b, a) is the converse of that of (a, b) - broadcast axioms, audited likewise',
-    'T4': 'extractor rewrite rules R1-R18 (syntactic; counts per rule reported in coverage.rewrites)',
+    'T4': 'extractor rewrite rules R1-R19 (syntactic; counts per rule reported in coverage.rewrites)',
     'T5': 'Verus 0.2026.09.13 + its Z3; rustc front end',
     'T9': 'the id counter LOGIC_VAR_ID (static mut, outside Verus) as ghost state `ids` passed along by the functions that touch it (spec/counter_state.rs): changed only by next_id (+1, returns the new value), set_var_id, clear_id / start_query',
     'T10': 'functions of their arguments (no global state, no interior mutability), assumed where they are callees through uninterpreted spec functions - C21 (unit loadkb): read_facts_and_rules (of the file system), parse_rule, add_rules; C01 (unit solver_sld): unify (unify_res), the ten built-in predicates (bip_res), get_rule up to the id counter (variant); C20: parse_term, make_term, check_arithmetic_infix and get_left_and_right are FUNCTIONS of their arguments (no global state, no interior mutability): assumed where they are callees, through uninterpreted spec functions alone / mk / arith_infix / operands (spec/contexts.rs)',
